@@ -29,6 +29,62 @@ YIELD = -1
 LONG_STEPS = 64  # a wake-up that goes wrong this deep into a script gets its own fingerprint
 
 
+# ------------------------------------------------------------------------------------------------
+# block_on interludes (another user of the thread's scheduler channel; never a subject)
+# ------------------------------------------------------------------------------------------------
+# An interlude is a plain list of durations (future sleeps them in turn) or a script {"se": ev|None,
+# "ops": [[d, ev|None], ...]} interpreted like a task script (emit on the first poll, then sleep/emit).  The
+# future completes in the poll that follows its last sleep; `ops[-1][1]` (or `se` when there are no ops) is
+# therefore "an event emitted in the completing poll", everything else is emitted in a poll that is followed by
+# another await.
+
+BO_NONE = " [another scheduler was driven on the same thread between the run_for calls]"
+BO_NONFINAL = (" [block_on of a future that emitted events, none of them in its completing poll, ran on the same "
+               "thread in between]")
+BO_FINAL = " [block_on of a future that emitted an event in its completing poll ran on the same thread in between]"
+
+
+def interlude_emits(entry: Any) -> Tuple[bool, bool]:
+    """(emits in a poll that is followed by another await, emits in the completing poll)"""
+    if not isinstance(entry, dict):
+        return False, False
+    ops = entry.get("ops") or []
+    se = entry.get("se")
+    if not ops:
+        return False, se is not None
+    nonfinal = se is not None or any(o[1] is not None for o in ops[:-1])
+    return nonfinal, ops[-1][1] is not None
+
+
+def interlude_flavour(entries: List[Any]) -> Optional[str]:
+    """None: no interlude emits anything; 'final': some interlude emits in its completing poll; 'nonfinal':
+    interludes emit, but only in polls followed by another await."""
+    flav = None
+    for e in entries:
+        nf, f = interlude_emits(e)
+        if f:
+            return "final"
+        if nf:
+            flav = "nonfinal"
+    return flav
+
+
+def interlude_suffix(entries: List[Any], none: str = BO_NONE) -> str:
+    return {None: none, "nonfinal": BO_NONFINAL, "final": BO_FINAL}[interlude_flavour(entries)]
+
+
+def strip_final_emit(entry: Dict[str, Any]) -> Dict[str, Any]:
+    """The same interlude script without an emission in its completing poll."""
+    e = dict(entry)
+    ops = [list(o) for o in (e.get("ops") or [])]
+    if ops:
+        ops[-1][1] = None
+    else:
+        e.pop("se", None)
+    e["ops"] = ops
+    return e
+
+
 def expand_tasks(tasks: List[Dict[str, Any]]) -> List[Dict[str, Any]]:
     """Unfold the compact [d, ev, rep] notation into plain [d, ev] ops (same expansion as the Rust adapter)."""
     if not any(len(o) > 2 for t in tasks for o in t["ops"]):
